@@ -37,6 +37,8 @@ bool InjectHook() {
 
 int g_arr[4096];
 
+bool g_bits = false;  // floating types: the words are bit patterns (types b32 / b64), not small integers
+
 template <typename T>
 struct Conv {
   static T From(std::uint64_t w) {
@@ -45,6 +47,16 @@ struct Conv {
     } else if constexpr (std::is_pointer_v<T>) {
       return &g_arr[w];
     } else if constexpr (std::is_floating_point_v<T>) {
+      if (g_bits) {
+        T v;
+        if constexpr (sizeof(T) == 4) {
+          const auto u = static_cast<std::uint32_t>(w);
+          std::memcpy(&v, &u, sizeof v);
+        } else {
+          std::memcpy(&v, &w, sizeof v);
+        }
+        return v;
+      }
       return static_cast<T>(static_cast<std::int64_t>(w));
     } else {
       return static_cast<T>(static_cast<std::make_unsigned_t<T>>(w));
@@ -56,6 +68,17 @@ struct Conv {
     } else if constexpr (std::is_pointer_v<T>) {
       return static_cast<std::uint64_t>(v - &g_arr[0]);
     } else if constexpr (std::is_floating_point_v<T>) {
+      if (g_bits) {
+        if constexpr (sizeof(T) == 4) {
+          std::uint32_t u = 0;
+          std::memcpy(&u, &v, sizeof u);
+          return u;
+        } else {
+          std::uint64_t u = 0;
+          std::memcpy(&u, &v, sizeof u);
+          return u;
+        }
+      }
       return static_cast<std::uint64_t>(static_cast<std::int64_t>(v));
     } else {
       return static_cast<std::uint64_t>(static_cast<std::make_unsigned_t<T>>(v));
@@ -290,6 +313,10 @@ int AtomicMain(int, char**) {
     VRT_T("ptr", int*)
     VRT_T("f32", float)
     VRT_T("f64", double)
+    g_bits = true;
+    VRT_T("b32", float)
+    VRT_T("b64", double)
+    g_bits = false;
 #undef VRT_T
     std::printf("%ld %s\n", idx, res.c_str());
     ++idx;
